@@ -267,6 +267,7 @@ pub struct ObjState {
     pub id: usize,
     occ: AtomicUsize,
     pub dead: AtomicUsize,
+    inside: StdMutex<Vec<String>>,
 }
 
 impl ObjState {
@@ -275,12 +276,26 @@ impl ObjState {
             rt::violation(format!("USE-AFTER-DROP {} ran on object {} after its value was destroyed", who, self.id));
         }
         let prev = self.occ.fetch_add(1, AO::SeqCst);
+        let others = {
+            let mut i = self.inside.lock().unwrap();
+            let o = i.join(",");
+            i.push(who.to_string());
+            o
+        };
         if prev != 0 {
-            rt::violation(format!("OVERLAP {} entered object {} while {} other operation(s) were inside", who, self.id, prev));
+            rt::violation(format!("OVERLAP {} entered object {} while {} other operation(s) were inside [{}]", who, self.id, prev, others));
         }
     }
     pub fn exit(&self) {
         self.occ.fetch_sub(1, AO::SeqCst);
+        self.inside.lock().unwrap().pop();
+    }
+    pub fn exit_named(&self, who: &str) {
+        self.occ.fetch_sub(1, AO::SeqCst);
+        let mut i = self.inside.lock().unwrap();
+        if let Some(p) = i.iter().position(|x| x == who) {
+            i.remove(p);
+        }
     }
     pub fn occupancy(&self) -> usize {
         self.occ.load(AO::SeqCst)
@@ -379,11 +394,11 @@ impl Body {
             a();
         }
         if self.panic {
-            st.exit();
+            st.exit_named(name);
             rec.end(op, false);
             panic!("PLANNED-PANIC in {}", name);
         }
-        st.exit();
+        st.exit_named(name);
         rec.end(op, false);
     }
 }
@@ -393,13 +408,14 @@ struct AsyncSpan {
     rec: Arc<Rec>,
     op: OpId,
     st: Arc<ObjState>,
+    name: String,
     done: bool,
 }
 
 impl Drop for AsyncSpan {
     fn drop(&mut self) {
         if !self.done {
-            self.st.exit();
+            self.st.exit_named(&self.name);
             self.rec.end(self.op, true);
         }
     }
@@ -408,7 +424,7 @@ impl Drop for AsyncSpan {
 async fn run_async(body: Body, rec: Arc<Rec>, op: OpId, st: Arc<ObjState>, name: String) {
     rec.start(op);
     st.enter(&name);
-    let mut span = AsyncSpan { rec: rec.clone(), op, st: st.clone(), done: false };
+    let mut span = AsyncSpan { rec: rec.clone(), op, st: st.clone(), name: name.clone(), done: false };
     for _ in 0..body.yields.unwrap_or(1) {
         vthread::yield_now();
     }
@@ -416,6 +432,9 @@ async fn run_async(body: Body, rec: Arc<Rec>, op: OpId, st: Arc<ObjState>, name:
         g.clone().await;
         // a scheduling point after the resumption, still inside the operation
         vthread::yield_now();
+        if st.dead.load(AO::SeqCst) != 0 {
+            rt::violation(format!("USE-AFTER-DROP {} resumed on object {} after its value was destroyed", name, st.id));
+        }
         // the operation is still exclusive after the await
         if st.occupancy() != 1 {
             rt::violation(format!("OVERLAP {} resumed on object {} with occupancy {}", name, st.id, st.occupancy()));
@@ -428,7 +447,7 @@ async fn run_async(body: Body, rec: Arc<Rec>, op: OpId, st: Arc<ObjState>, name:
         panic!("PLANNED-PANIC in {}", name);
     }
     span.done = true;
-    st.exit();
+    st.exit_named(&name);
     rec.end(op, false);
 }
 
@@ -447,13 +466,13 @@ impl World {
 
     pub fn raw(&self) -> Obj {
         let mut objs = self.objs.lock().unwrap();
-        let st = Arc::new(ObjState { id: self.next_id.fetch_add(1, AO::SeqCst), occ: AtomicUsize::new(0), dead: AtomicUsize::new(0) });
+        let st = Arc::new(ObjState { id: self.next_id.fetch_add(1, AO::SeqCst), occ: AtomicUsize::new(0), dead: AtomicUsize::new(0), inside: StdMutex::new(vec![]) });
         objs.push(st.clone());
         Obj::Raw(scheduler::queue(), st)
     }
 
     pub fn new_payload(&self) -> (Payload, Arc<ObjState>) {
-        let st = Arc::new(ObjState { id: self.next_id.fetch_add(1, AO::SeqCst), occ: AtomicUsize::new(0), dead: AtomicUsize::new(0) });
+        let st = Arc::new(ObjState { id: self.next_id.fetch_add(1, AO::SeqCst), occ: AtomicUsize::new(0), dead: AtomicUsize::new(0), inside: StdMutex::new(vec![]) });
         (Payload { canary: CANARY, st: st.clone(), drops: self.payload_drops.clone(), log: vec![], boxed: Box::new(CANARY) }, st)
     }
 
@@ -609,8 +628,10 @@ impl World {
                     async move {
                         p.check(&nm);
                         let st = p.st.clone();
-                        run_async(body, rec2, op, st, nm).await;
-                        p.log.push(op);
+                        run_async(body, rec2, op, st.clone(), nm).await;
+                        if st.dead.load(AO::SeqCst) == 0 {
+                            p.log.push(op);
+                        }
                         token
                     }
                     .boxed()
